@@ -9,20 +9,20 @@ Lemma np_ret r : np r -> NP (Ret r).
 Proof. intros H. constructor. exact H. Qed.
 
 Lemma np_fail_with a k l : NP (fail_with a k l).
-Proof. constructor. intros i ans. constructor. exact I. Qed.
+Proof. apply Leaves_call; [reflexivity|]. intros i ans. constructor. exact I. Qed.
 
 Lemma np_absorb {X} (ok : X -> Prop) a acc oalg e loc go stop :
   (forall i, Leaves ok (go (Some i))) -> (forall i, Leaves ok (stop i)) ->
   Leaves ok (absorb a acc oalg e loc go stop).
-Proof. intros Hg Hs. constructor. intros i ans. destruct ans; [apply Hg|apply Hs]. Qed.
+Proof. intros Hg Hs. apply Leaves_call; [reflexivity|]. intros i ans. destruct ans; [apply Hg|apply Hs]. Qed.
 Lemma np_report {X} (ok : X -> Prop) a acc k loc go stop :
   (forall i, Leaves ok (go (Some i))) -> (forall i, Leaves ok (stop i)) ->
   Leaves ok (report a acc k loc go stop).
-Proof. intros Hg Hs. constructor. intros i ans. destruct ans; [apply Hg|apply Hs]. Qed.
+Proof. intros Hg Hs. apply Leaves_call; [reflexivity|]. intros i ans. destruct ans; [apply Hg|apply Hs]. Qed.
 Lemma np_report_user {X} (ok : X -> Prop) a acc u loc go stop :
   (forall i, Leaves ok (go (Some i))) -> (forall i, Leaves ok (stop i)) ->
   Leaves ok (report_user a acc u loc go stop).
-Proof. intros Hg Hs. constructor. intros i ans. destruct ans; [apply Hg|apply Hs]. Qed.
+Proof. intros Hg Hs. apply Leaves_call; [reflexivity|]. intros i ans. destruct ans; [apply Hg|apply Hs]. Qed.
 
 Lemma np_deser_int a d v l : NP (deser_int a d v l).
 Proof.
@@ -65,7 +65,7 @@ Lemma np_validate a val l o : NP (validate a val l o).
 Proof.
   unfold validate. destruct val as [fn|]; [|apply np_ret; exact I].
   apply leaves_user. destruct (ufail o); [|apply np_ret; exact I].
-  constructor. intros i ans. apply np_ret. exact I.
+  apply Leaves_call; [reflexivity|]. intros i ans. apply np_ret. exact I.
 Qed.
 
 (** sequences: with an empty accumulator, every element so far produced an output *)
@@ -178,7 +178,7 @@ Proof.
     + constructor. apply Hgo.
     + apply leaves_user. constructor. apply Hgo.
     + apply leaves_user. destruct (ufail x); [|constructor; apply Hgo].
-      constructor. intros i1 ans1. constructor. intros i2 ans2.
+      apply Leaves_call; [reflexivity|]. intros i1 ans1. apply Leaves_call; [reflexivity|]. intros i2 ans2.
       destruct (ans1 && ans2); constructor.
       * split; [rewrite set_nth_length; exact Hlen|intros Hc; discriminate].
       * exact I.
@@ -378,7 +378,7 @@ Proof.
   - apply np_and_then; [apply IHt|]. intros o. apply leaves_user. apply np_validate.
   - apply np_and_then; [apply IHt|]. intros o. apply leaves_user.
     destruct (ufail o); [|apply np_validate].
-    constructor. intros i ans. apply np_ret. exact I.
+    apply Leaves_call; [reflexivity|]. intros i ans. apply np_ret. exact I.
 Qed.
 
 Theorem deser_never_panics t a v l script s site :
